@@ -25,8 +25,8 @@ txt = []
 txt.append('Each directory `seeded/<id>/` holds a change made by a sub-agent that was given only the property text and its '
            'own scratch worktree (nothing from /verif): `patch.diff` (against the repaired tree), a demonstration test that '
            'passes without and fails with the patch, `notes.md`, and `meta.json` (confirmation that the library builds and '
-           'the 70 baseline tests still pass with the patch). `-A`/`-B` are the first round, `-C` a second round made after '
-           'the rules existed. The table is what every check reports on a scratch copy with the patch applied '
+           'the 70 baseline tests still pass with the patch). `-A`/`-B` are the first round, `-C`, `-D` and `-E`/`-F` the second to fourth, each '
+           'made after the rules of the round before existed (DESIGN 9.6 says what each round found before tuning). The table is what every check reports on a scratch copy with the patch applied '
            '(`python3 checker/selftest.py record`); the thorough tier of each property re-runs its own rows.\n')
 txt.append('| seeded change | what it does | reported by (check: rules) | reported by its own property\'s check |')
 txt.append('|---|---|---|---|')
